@@ -26,6 +26,7 @@ DOC_E = "{ a { a } color }"
 DOC_F = "query Q($s: Boolean!) { a { id @skip(if: $s) name } }"
 DOC_G = "{ ...RF color } fragment RF on Query { num a { ...AF } } fragment AF on A { id }"
 DOC_H = "{ ...RF } fragment RF on Query { color hello(n: 2) }"
+DOC_M = "query($s: Boolean = false) { x: num @skip(if: false) ...MF color } fragment MF on Query { x: num @skip(if: $s) }"
 POOL = [
     # label, text, op, variables, faults, variant, ctx-kind
     ("skip-true", DOC_A, None, {"s": True}, {}, 1, "scn"),
@@ -36,6 +37,8 @@ POOL = [
     ("nested-skip-false", DOC_F, None, {"s": False}, {}, 1, "scn"),
     ("root-fragment", DOC_G, None, None, {}, 1, "scn"),
     ("root-fragment-same-name-other-body", DOC_H, None, None, {}, 2, "scn"),
+    ("merged-directives-false", DOC_M, None, {"s": False}, {}, 1, "scn"),
+    ("merged-directives-true", DOC_M, None, {"s": True}, {}, 2, "scn"),
     ("failing", DOC_C, None, None, {("b", "strict"): "none"}, 1, "scn"),
     ("bytes", DOC_A.encode(), None, {"s": False}, {}, 1, "scn"),
     ("dict-context", DOC_D, None, None, {}, 2, "dict"),
